@@ -427,6 +427,62 @@ pub fn run() -> i32 {
     });
     ctx.absorb("dh-kx", st);
 
+    // constructed peer keys: for each target in SPARSE_SECRETS (structured X25519 outputs: one
+    // half all-zero, halves with disjoint bits, equal halves, single bytes, u = 9) and each own
+    // secret key k, the peer key P = [k^-1 mod l]T is built with libsodium's group operations so
+    // that the raw shared secret X25519(k, P) IS the target. None of them is all-zero, so key
+    // exchange, DH and box precomputation must accept and equal libsodium.
+    {
+        let units: Vec<usize> = (0..SPARSE_SECRETS.len()).collect();
+        let st = par_units(&units, |&ti, st| {
+            let (fam, u_hex, t_hex) = SPARSE_SECRETS[ti];
+            let target: B32 = unhx(&json!(u_hex)).try_into().unwrap();
+            let t_ed: B32 = unhx(&json!(t_hex)).try_into().unwrap();
+            for ski in 0..sks.len().min(6) {
+                let sk = &sks[ski];
+                // the clamped scalar as an integer mod l
+                let mut k = *sk;
+                k[0] &= 248;
+                k[31] &= 127;
+                k[31] |= 64;
+                let mut wide = [0u8; 64];
+                wide[..32].copy_from_slice(&k);
+                let kr = sodium::sc_reduce64(&wide);
+                let Some(kinv) = sodium::sc_invert(&kr) else { continue };
+                let Some(p_ed) = sodium::ed_mult_noclamp(&kinv, &t_ed) else { continue };
+                let Some(peer) = sodium::ed_pk_to_curve(&p_ed) else { continue };
+                // libsodium confirms the construction; a case it does not confirm is not used
+                if sodium::scalarmult(sk, &peer) != Some(target) {
+                    st.eval(&("constructed", ti, ski), false, "construction-not-confirmed");
+                    continue;
+                }
+                let pk = sodium::scalarmult_base(sk);
+                let dm = dry_mult(sk, &peer);
+                let bn = guarded(AssertUnwindSafe(|| crypto_box_beforenm(&peer, sk))).ok();
+                let (mut rx, mut tx) = ([0xC3u8; 32], [0xC3u8; 32]);
+                let c = guarded(AssertUnwindSafe(|| crypto_kx_client_session_keys(&mut rx, &mut tx, &pk, sk, &peer).ok().map(|_| (rx, tx)))).unwrap_or(None);
+                let (mut rx2, mut tx2) = ([0xC3u8; 32], [0xC3u8; 32]);
+                let s = guarded(AssertUnwindSafe(|| crypto_kx_server_session_keys(&mut rx2, &mut tx2, &pk, sk, &peer).ok().map(|_| (rx2, tx2)))).unwrap_or(None);
+                let kp: KeyPair<StackByteArray<32>, StackByteArray<32>> = KeyPair::from_slices(&pk, sk).unwrap();
+                let peer_sb: StackByteArray<32> = peer.into();
+                let oc = guarded(AssertUnwindSafe(|| Session::<StackByteArray<32>>::new_client(&kp, &peer_sb).ok().map(|x| (*x.rx_as_array(), *x.tx_as_array())))).unwrap_or(None);
+                let os = guarded(AssertUnwindSafe(|| Session::<StackByteArray<32>>::new_server(&kp, &peer_sb).ok().map(|x| (*x.rx_as_array(), *x.tx_as_array())))).unwrap_or(None);
+                let (wc, ws) = (sodium::kx_client(&pk, sk, &peer), sodium::kx_server(&pk, sk, &peer));
+                let ok = dm.clone().ok() == Some(target) && bn == sodium::box_beforenm(&peer, sk) && c == wc && s == ws && oc == wc && os == ws && wc.is_some() && ws.is_some();
+                st.eval(&("constructed", ti, ski), true, if ok { "structured-secret==libsodium" } else { "structured-secret-differs" });
+                if !ok {
+                    st.fail(Fail {
+                        check: "C05.x25519".into(),
+                        signature: "C05/kx/structured-shared-secret".into(),
+                        what: format!("peer key {} constructed so that X25519(sk {}, peer) = {} ({}): dryoc mult {:?}, kx client {} server {} object client {} server {} (libsodium accepts: {})", hx(&peer), hx(sk), u_hex, fam, dm.map(|x| hx(&x)), c == wc, s == ws, oc == wc, os == ws, wc.is_some()),
+                        case: json!({"kind": "mult", "n": hx(sk), "p": hx(&peer)}),
+                    });
+                }
+            }
+        });
+        ctx.absorb("constructed-structured-secrets", st);
+    }
+
     // key exchange with every peer key of the point table (top bit set, non-canonical, twist,
     // small-order component): verdict and session keys must equal libsodium's in both roles
     let peers: Vec<B32> = ps.iter().enumerate().filter(|(i, p)| i % 7 == 0 || point_class(p) != "ordinary(curve-or-twist)").map(|(_, p)| *p).collect();
@@ -525,3 +581,30 @@ pub fn run() -> i32 {
     ctx.require_outcome("kx==libsodium");
     ctx.finish()
 }
+
+/// (family, target X25519 output, Edwards encoding of a torsion-free point with that Montgomery
+/// u-coordinate) — generated by tools/sparse_secret_vectors.py; re-confirmed with libsodium at
+/// run time before use.
+const SPARSE_SECRETS: &[(&str, &str, &str)] = &[
+    ("u=9", "0900000000000000000000000000000000000000000000000000000000000000", "5866666666666666666666666666666666666666666666666666666666666666"),
+    ("low-half-only small", "1000000000000000000000000000000000000000000000000000000000000000", "414b4b4b4b4b4b4b4b4b4b4b4b4b4b4b4b4b4b4b4b4b4b4b4b4b4b4b4b4b4b4b"),
+    ("low-half-only small", "2200000000000000000000000000000000000000000000000000000000000000", "f88aaff88aaff88aaff88aaff88aaff88aaff88aaff88aaff88aaff88aaff80a"),
+    ("low-half-only one byte", "0003000000000000000000000000000000000000000000000000000000000000", "874e14c3b6db6cb9d38471abfd06eb3e43365de8462b7e856fb1eb3c49249346"),
+    ("low-half-only one byte", "0009000000000000000000000000000000000000000000000000000000000000", "a2d57c9c7f83609b89298a24b78ff278bf4495c03aef96b1c130496d2894ca60"),
+    ("low-half-only dense", "862fa1bdf54a97bffa8159c24edcd54b00000000000000000000000000000000", "c24c63eab648e9b55bd7fad0e2d3bfccf1fec07be33a6baa9f7517789ba89841"),
+    ("low-half-only dense", "9ace1c4d15e783241b74db2a2ee14e8800000000000000000000000000000000", "2c84ab3fd8a9a40b37c92f95c8f07726348f7322a2afd24d93173c1909358e13"),
+    ("high-half-only small", "0000000000000000000000000000000005000000000000000000000000000000", "1383f2a9a231289f2a1a83f2a9a231287d7043aed20737e42a7d7043aed20737"),
+    ("high-half-only small", "000000000000000000000000000000001b000000000000000000000000000000", "138b707630f4c5847d6aa9543bbcb09c33532182e33e1fffc2c42112be255c79"),
+    ("high-half-only dense", "00000000000000000000000000000000448d127dcbb11e4d28c88ca2f4287417", "805a8f8008fce0e546cae63db643c1f3a7b1d4cdc464c50213e7ea095836d823"),
+    ("high-half-only dense", "0000000000000000000000000000000042a01a8c8d12c112b5963aa170675145", "606c1ad4296ca92bc6f3393157cd59180a13e141ebdaaa91770d61345bc94a63"),
+    ("halves bitwise disjoint (complement)", "9b3783337ad09184258efb87abd47a6664c87ccc852f6e7bda710478542b8519", "70b713d77e57a93a33a248cfef53656412ef7aa1e6241f741b27c38824a67a3a"),
+    ("halves bitwise disjoint (complement)", "f7c78abb9752f3c8e1a08aa31253c0690838754468ad0c371e5f755cedac3f16", "0665c12857c4aa458c13b3aca04269c6b3349539114bc8daad5c636b99729e7e"),
+    ("halves bitwise disjoint (sparse)", "12102580010a4721a28840405606402841205001244010060103000801710001", "ada1b15767c0e1414250bac48e9a01b055b1d52e46511c8581a635b5d40b6461"),
+    ("halves bitwise disjoint (sparse)", "920002380415a942280020062136026401c0204302000480004098e102000403", "c665979dc53b2a38bb155fb68c01124e9d1250228930095c078c299feef48610"),
+    ("halves equal", "5b89c9ff4526029905e58d98daab6d7f5b89c9ff4526029905e58d98daab6d7f", "fba6bbde254b0e7fa0252997ada011312da9268cc8fddae93a73219ae5ac6174"),
+    ("halves equal", "ac44efd7832861225279ef6a26cc6966ac44efd7832861225279ef6a26cc6966", "2283a1e2a5a3235b166544ab4284ac02cb82e4fe59b367d3597a922df6754d79"),
+    ("one bit per 64-bit word", "0400000000000000000000000000000800000000000100000000010000000000", "0dc87d6e497e140870e140b3d208491949feed58d6b17cc047dd904f0ac59b31"),
+    ("one bit per 64-bit word", "0000000040000000800000000000000000000000020000000200000000000000", "20094fd115054a16bc1798e066faeb69f187ffc5e29912a20e7263ac50511270"),
+    ("single non-zero byte high", "0000000000000000000000000000000005000000000000000000000000000000", "1383f2a9a231289f2a1a83f2a9a231287d7043aed20737e42a7d7043aed20737"),
+    ("single non-zero byte high", "000000000000000000000000000000001b000000000000000000000000000000", "138b707630f4c5847d6aa9543bbcb09c33532182e33e1fffc2c42112be255c79"),
+];
